@@ -356,6 +356,11 @@ class C03Counts(Monitor):
         res = ctx.result
         if res is not None:
             self.cov("minimize_nfev_checked")
+            rep = len(ctx.log) - len({e[1] for e in ctx.log})
+            if rep:
+                self.cov("minimize_calls_at_a_repeated_point", rep)
+            if rep >= 5:
+                self.cov("minimize_runs_with_5_or_more_repeated_points")
             if res.nfev != len(ctx.log):
                 self.v("minimize(): nfev != number of calls of fun", nfev=int(res.nfev), calls=len(ctx.log), maxfun=ctx.desc.get("maxfun"))
             mf = ctx.desc.get("maxfun")
@@ -387,6 +392,16 @@ class C04Best(Monitor):
         self.prev_tree_best = None
         self.prev_deme_best = {}
         self.improved = 0
+
+    def on_gsc(self, tree, verdict, kind, deme):
+        # what a user-defined stop condition of the kind "target reached or budget spent" does: it looks at the best so far every time
+        # it is consulted, also in the middle of a metaepoch (generations evaluated but not yet appended to the history)
+        if self.ctx.desc.get("peek_best_at_every_consultation"):
+            _ = tree.best_individual
+            for d in self.all_demes(tree):
+                _ = d.best_individual
+            if kind == "deme":
+                self.cov("best_read_inside_a_metaepoch")
 
     def _scan(self, tree, where):
         ctx = self.ctx
